@@ -21,6 +21,8 @@ import (
 	mrand "math/rand"
 	"net/http"
 	"net/http/httptest"
+	"net/url"
+	"os"
 	"strings"
 	"testing"
 	"testing/synctest"
@@ -448,6 +450,7 @@ func familySession(t *testing.T) {
 		defer guard()
 		if T.prop == "C09" {
 			contentSweep(rng)
+			configuredKeys()
 		}
 		nHist := T.size(70, 600)
 		for h := 0; h < nHist; h++ {
@@ -873,3 +876,71 @@ func (s *sessRun) tamperMatrix(rng *mrand.Rand) {
 }
 
 var _ = http.StatusOK
+
+// configuredKeys (C09): the cookies of an instance are sealed under the key it was configured with, exactly as written - whatever
+// characters the administrator's secret contains - and under no other: not the key printed in the source for the plugin
+// analyser, not what a shell or template engine would make of the string.
+func configuredKeys() {
+	p := newProvider(keys()["p256a"])
+	pub := "0123456789abcdef0123456789abcdef0123456789abcdef0123456789abcdef"
+	cands := []string{
+		"${OIDC_SESSION_KEY_NOT_SET}", // shorter than the minimum as written: the instance must not come up with some other key
+		"$OIDC_SESSION_KEY_NOT_SET",
+		"${OIDC_SESSION_KEY_NOT_SET}-and-a-tail-that-makes-it-long-enough",
+		"$HOME/keys/session-key-0123456789-0123456789",
+		"%OIDC_KEY%-0123456789-0123456789-0123456789",
+		"key with spaces, \"quotes\" and \\ backslashes 0123456789",
+		"p\u00e4ssw\u00f6rd-mit-\u00fcml\u00e4uten-0123456789-0123456789",
+		"$$$$$$$$$$$$$$$$$$$$$$$$$$$$$$$$$$$$$$$$",
+		"{{ .Env.KEY }}-0123456789-0123456789-0123456789",
+		"  leading-and-trailing-blanks-0123456789-0123456789  ",
+		"UPPER-and-lower-CASE-key-0123456789-0123456789",
+	}
+	for _, K := range cands {
+		cfg := baseConfig(p)
+		cfg.SessionEncryptionKey = K
+		h, err := oidc.New(nil, &down{}, cfg, "verif")
+		if err != nil {
+			T.stat("session.configured-keys.rejected")
+			continue
+		}
+		time.Sleep(time.Second)
+		synctest.Wait()
+		T.stat("session.configured-keys.accepted")
+		req := httptest.NewRequest("GET", "http://app.test/first", nil)
+		rec := httptest.NewRecorder()
+		h.ServeHTTP(rec, req)
+		lu, _ := url.Parse(rec.Header().Get("Location"))
+		if rec.Code != 302 || lu == nil || lu.Query().Get("state") == "" {
+			continue
+		}
+		state := lu.Query().Get("state")
+		j := jar{}
+		j.apply(rec.Header())
+		readWith := func(key string) string {
+			sm, err := oidc.NewSessionManager(key, false, oidc.NewLogger("none"))
+			if err != nil {
+				return ""
+			}
+			r := httptest.NewRequest("GET", "http://app.test/", nil)
+			j.addTo(r)
+			sd, err := sm.GetSession(r)
+			if err != nil {
+				return ""
+			}
+			return sd.GetCSRF()
+		}
+		rp := M{"family": "session", "configuredKey": K, "what": "instance built with this sessionEncryptionKey; first visit; the cookies of the login redirect are read with several keys"}
+		if len(K) >= 32 && readWith(K) != state {
+			T.oracle("C09", "the cookies of an instance cannot be read with the key it was configured with: it seals them under some other key", M{"key": K}, rp)
+		}
+		if K != pub && readWith(pub) == state {
+			T.oracle("C09", "session cookies are readable with the key printed in the source although another key is configured", M{"key": K}, rp)
+		}
+		for _, alt := range []string{os.ExpandEnv(K), strings.TrimSpace(K), strings.ToLower(K), strings.ReplaceAll(K, "$", "")} {
+			if alt != K && len(alt) >= 32 && readWith(alt) == state {
+				T.oracle("C09", "session cookies are readable with a key other than the configured one", M{"key": K, "other": alt}, rp)
+			}
+		}
+	}
+}
